@@ -1448,6 +1448,42 @@ def star_shadowing_rule(cx, rep, rid):
             rep.ob(rid, "%s/own-exports-hide-star-members" % g.rsplit("::", 1)[-1], "named_unknown" in tests,
                    "%s collects the members of the `export *` targets and hides those the module exports itself by looking at %s only: a name the module re-exports explicitly (`export { x } from \"./a\"`, table named_unknown) is overridden by the `x` of a star target" % (g, ", ".join(sorted(tests))),
                    "%s:%s" % (f.file, lp.get("line")), sample={"fn": g, "tables_consulted": sorted(tests)})
+    # the same bookkeeping in its other spelling (since fix 72dd0ae): own names are ENTERED into a set of seen names while
+    # the module's own tables are walked, and a star member is dropped when its name is already there.  Then every loop
+    # over an own table, in a function that also walks the star list, enters its names (seed C09-m re-expressed: the
+    # loop over the named re-exports did not)
+    for g, t in sorted(F.hir.items()):
+        f = F.fns.get(g)
+        if f is None or f.crate == "beff_wasm":
+            continue
+        if not any(y["k"] == "Field" and y.get("name") == "extends" and (y.get("adt") or "").endswith("SymbolsExportsModule") for y in hwalk(t["body"])):
+            continue
+        lets = {}
+        for x in hwalk(t["body"]):
+            if x["k"] == "LetStmt" and x.get("init") is not None:
+                tabs = {z["name"] for z in hwalk(x["init"]) if z["k"] == "Field" and (z.get("adt") or "").endswith("SymbolsExportsModule") and z.get("name", "").startswith("named_")}
+                if tabs:
+                    for b in hwalk(x["pat"]):
+                        if b["k"] == "P.Binding":
+                            lets[b.get("lid")] = tabs
+        loops = []
+        for lp in hwalk(t["body"]):
+            if lp["k"] == "Match" and lp.get("src") == "ForLoopDesugar":
+                tabs = set()
+                for y in hwalk(lp["scrut"]):
+                    if y["k"] == "Field" and (y.get("adt") or "").endswith("SymbolsExportsModule") and y.get("name", "").startswith("named_"):
+                        tabs.add(y["name"])
+                    if y["k"] == "Path" and y.get("lid") in lets:
+                        tabs |= lets[y["lid"]]
+                if tabs:
+                    enters = any(z["k"] == "MethodCall" and z.get("method") == "insert" and re.search(r"Set<std::string::String>", z.get("recv_ty") or "") for z in hwalk(lp["arms"]))
+                    loops.append((lp, tabs, enters))
+        if loops and any(e for _, _, e in loops):
+            n += 1
+            bad = [(lp, tabs) for lp, tabs, e in loops if not e]
+            rep.ob(rid, "%s/own-names-entered" % g.rsplit("::", 1)[-1], not bad,
+                   "%s walks the star list and enters the module's own names into a set of seen names, but its loop over %s does not: a member of an `export *` target with the name of an explicit re-export is listed too and overrides it in the namespace object" % (g, ", ".join(sorted(bad[0][1])) if bad else "?"),
+                   "%s:%s" % (f.file, bad[0][0].get("line") if bad else f.line), sample={"fn": g})
     rep.ob(rid, "scan", True, sample={"collecting_star_walks": n})
 
 
